@@ -438,6 +438,11 @@ class SArr(SArrBase):
         if len(adv) == 1:
             ax, idx = adv[0]
             if idx.kind == "b":
+                if ax == 0 and idx.ndim == 2 and self.ndim >= 2:
+                    # a[mask2d] = a[i1, i2] with (i1, i2) = np.nonzero(mask2d): the selected cells in C order
+                    from . import npshim
+                    r1, r2 = npshim.nonzero(idx)
+                    return self[(r1, r2) + (slice(None),) * (self.ndim - 2)]
                 if ax != 0 or idx.ndim != 1:
                     raise Unsupported("boolean mask on axis != 0")
                 return mask_select(self, idx)
